@@ -311,5 +311,5 @@ func checkC02(c *core.Ctx) {
 	// 5. kill ordering and stash ordering on the real actor system (turn-gated), judged by OrderMon
 	asCheck(c, asPlan{prop: "C02", monitors: []string{"OrderMon"}, mc: []string{"MC_T3_" + asVariant + ".cfg"}, gen: []string{"Gen_T3S_" + asVariant + ".cfg"},
 		ops: [][2]string{{"nop", ""}, {"nop", ""}, {"stash", ""}, {"stash", ""}, {"unstash", ""}, {"kill", "@"}, {"pkill", "@"}, {"tell", "@"}, {"fail", ""},
-			{"sched-stash", ""}, {"sched-stash", ""}, {"unstash", ""}}})
+			{"sched-stash", ""}, {"sched-stash", ""}, {"unstash", ""}, {"tellself", ""}}})
 }
